@@ -48,7 +48,7 @@ FIRST_ELEM_ASSUMED = {
     ("pre_irrigation", "np.argwhere(prof.dzsum >= rootdepth).flatten()[0]"): ("A-8", "profile deeper than the root zone"),
     ("root_zone_water", "np.argwhere(prof.dzsum >= rootdepth).flatten()[0]"): ("A-8", "profile deeper than the root zone"),
     ("root_development", "np.argwhere(prof.dzsum >= ZiTmp).flatten()[0]"): ("A-8", "profile deeper than Zmax"),
-    ("root_development", "l_idx[0]"): ("A-12", "layers are numbered 1..nLayer and each has a compartment"),
+    ("_depth_with_restrictive_layers", "l_idx[0]"): ("A-12", "layers are numbered 1..nLayer and each has a compartment"),
     ("groundwater_inflow", "np.argwhere(zMid >= z_gw).flatten()[0]"): ("A-13", "wt_in_soil is True only if a compartment centre lies below the table"),
     ("read_model_initial_conditions", "np.where(comp_mid >= InitCond.z_gw)[0][0]"): ("A-13", "same test established wt_in_soil"),
     ("Soil.add_layer", "self.profile[self.profile.Layer == new_layer - 1].dzsum.values[-1]"): ("A-12", "the previous layer has a compartment"),
